@@ -794,33 +794,25 @@ let orc_item _args impl =
 
 (* ---------------- C07 / C16: the UI driven over a synthetic world ---------------- *)
 type ucont = CList of int list
-let op_ui args =
-  let (preload, r) = take1 args in let (width, r) = take1 r in let (height, r) = take1 r in
-  let (n, r) = take1 r in
-  let parent = Array.make n (-1) and kids = Array.make n None and links = Array.make n [] in
-  let r = ref r in
-  for i = 0 to n - 1 do
-    let (p, r1) = take1 !r in let (hk, r2) = take1 r1 in let (ks, r3) = take_list r2 in
-    let (nl, r4) = take1 r3 in let (ls, r5) = take_texts nl r4 in
-    parent.(i) <- p; kids.(i) <- (if hk <> 0 then Some ks else None); links.(i) <- ls; r := r5
-  done;
-  let (root, r1) = take1 !r in
-  let (nf, r2) = take1 r1 in
-  let rf = ref r2 in
-  let feeds = ref [] in
-  for _ = 1 to nf do
-    let (name, r3) = take_text !rf in let (ni, r4) = take1 r3 in let (_, r5) = take_texts ni r4 in
-    feeds := name :: !feeds; rf := r5
-  done;
-  let keys = !rf in
+(* the world of a UI run: per item id its parent, reply list, links and - for pub's concrete types - authors, recipients,
+   the actor of an activity and the links the media keys hand to the hook *)
+type uworld = {
+  uw_parent : (int, int) Hashtbl.t; uw_kids : (int, int list) Hashtbl.t; uw_links : (int, n list list) Hashtbl.t;
+  uw_creators : (int, int list) Hashtbl.t; uw_recipients : (int, int list) Hashtbl.t; uw_actor : (int, int) Hashtbl.t;
+  uw_media : (int, n list) Hashtbl.t; uw_pfp : (int, n list) Hashtbl.t; uw_banner : (int, n list) Hashtbl.t }
+let new_uworld () = { uw_parent = Hashtbl.create 16; uw_kids = Hashtbl.create 16; uw_links = Hashtbl.create 16;
+                      uw_creators = Hashtbl.create 16; uw_recipients = Hashtbl.create 16; uw_actor = Hashtbl.create 16;
+                      uw_media = Hashtbl.create 16; uw_pfp = Hashtbl.create 16; uw_banner = Hashtbl.create 16 }
+(* frames: compare the frame text (synthetic items) or not (real items: ago(), library texts); hooks: report the link handed to the hook *)
+let run_ui (wd : uworld) preload width height root feeds keys ~frames ~hooks =
+  let parent i = match Hashtbl.find_opt wd.uw_parent i with Some p -> p | None -> -1 in
   let rec parents_rec i q =
-    if i < 0 || i >= n || parent.(i) < 0 then ([], None)
-    else if q = 1 then ([parent.(i)], Some parent.(i))
-    else let (pp, fr) = parents_rec parent.(i) (q - 1) in (parent.(i) :: pp, fr) in
+    if parent i < 0 then ([], None)
+    else if q = 1 then ([parent i], Some (parent i))
+    else let (pp, fr) = parents_rec (parent i) (q - 1) in (parent i :: pp, fr) in
   let parents i q = let q = int_of_nat q in
-    if i < 0 || i >= n then ([], None)
-    else if q = 0 then ([], if parent.(i) >= 0 then Some i else None) else parents_rec i q in
-  let children i = if i >= 0 && i < n then (match kids.(i) with Some ks -> Some (CList ks) | None -> None) else None in
+    if q = 0 then ([], if parent i >= 0 then Some i else None) else parents_rec i q in
+  let children i = match Hashtbl.find_opt wd.uw_kids i with Some ks -> Some (CList ks) | None -> None in
   let rec firstn k l = if k = 0 then [] else match l with [] -> [] | x :: t -> x :: firstn (k - 1) t in
   let rec skipn k l = if k = 0 then l else match l with [] -> [] | _ :: t -> skipn (k - 1) t in
   let harvest (CList c) q b =
@@ -830,63 +822,121 @@ let op_ui args =
     else if b + q >= len then ((skipn b c, None), O)
     else ((firstn q (skipn b c), Some (CList c)), nat_of_int (b + q)) in
   let select_link i k = let k = int_of_z k in
-    if i >= 0 && i < n && k >= 1 && k <= List.length links.(i) then Some (List.nth links.(i) (k - 1)) else None in
-  let none1 _ = None in
+    let ls = (match Hashtbl.find_opt wd.uw_links i with Some l -> l | None -> []) in
+    if k >= 1 && k <= List.length ls then Some (List.nth ls (k - 1)) else None in
+  let look tbl i = Hashtbl.find_opt tbl i in
   let open_link _ = OItem 999 and open_user _ = OItem 999 in
-  let feed_named name = if List.mem name !feeds then Some (CList []) else None in
+  let feed_named name = if List.mem name feeds then Some (CList []) else None in
   let hook_fails _ = None in
   let lit s = List.map (fun ch -> n_of_int (Char.code ch)) (List.init (String.length s) (String.get s)) in
   let msg_feed x = lit "Failed to open feed: " @ x @ lit " is not a known feed" in
   let msg_cmd x = lit "Failed to run command: unrecognized subcommand: " @ x in
   let pre = z_of_int preload in
-  let upd s k = update pre parents children select_link none1 none1 none1 none1 none1 none1 open_link open_user feed_named msg_feed msg_cmd s (n_of_int k) in
+  let upd s k = update pre parents children select_link (look wd.uw_creators) (look wd.uw_recipients) (look wd.uw_actor)
+      (look wd.uw_media) (look wd.uw_pfp) (look wd.uw_banner) open_link open_user feed_named msg_feed msg_cmd s (n_of_int k) in
   let runt s t = run_task pre parents children harvest hook_fails s t in
   let settle_all s = settle pre parents children harvest hook_fails (nat_of_int 1000) s in
   let settle_g s = settle_gated pre parents children harvest hook_fails (nat_of_int 1000) s in
-  ignore runt;
   let str s = List.map (fun ch -> n_of_int (Char.code ch)) (List.init (String.length s) (String.get s)) in
   let rec rep k s = if k <= 0 then "" else s ^ rep (k - 1) s in
   let full_text i w = str (Printf.sprintf "full %d w%d%s" i (int_of_z w) (rep (i mod 3) (Printf.sprintf "\nmore of %d" i))) in
   let preview_text i w = str (Printf.sprintf "preview %d w%d%s" i (int_of_z w) (rep (i mod 2) "\nrest")) in
-  let snap s =
+  let snap s hooked =
     let (((((((m, b), pid), it), (lo, up)), (lu, ld)), fr), h) = snapshot s in
     [int_of_z m] @ put_text b @ [ (match pid with Some k -> int_of_nat k | None -> -1); (match it with Some i -> i | None -> -1);
       int_of_z lo; int_of_z up; b2i lu; b2i ld; int_of_nat fr; int_of_z h ]
-    @ (if it = Some 999 then put_text [] else
-         match last_frame pre default_colors full_text preview_text s with Ok f -> put_text f | Panic -> panic_marker) in
+    @ (if not frames || it = Some 999 then put_text [] else
+         match last_frame pre default_colors full_text preview_text s with Ok f -> put_text f | Panic -> panic_marker)
+    @ (if hooks then put_text hooked else []) in
   let s0 = ui_init (z_of_int width) (z_of_int height) in
   (* VerifOpen(root): switchTo under the lock, mode normal, one frame *)
   let s1 = runt s0 (TOpen (OItem root)) in
   let st = ref (settle_all s1) in
-  let out = ref (snap !st) in
+  let out = ref (snap !st []) in
   let gated = ref false in
+  let hook_of s = List.fold_left (fun acc t -> match t with THook l -> l | _ -> acc) [] s.u_tasks in
   let rec go ks = match ks with
     | [] -> ()
-    | 256 :: r -> gated := true; out := !out @ snap !st; go r
-    | 257 :: r -> gated := false; st := settle_all !st; out := !out @ snap !st; go r
+    | 256 :: r -> gated := true; out := !out @ snap !st []; go r
+    | 257 :: r -> gated := false; st := settle_all !st; out := !out @ snap !st []; go r
     | 258 :: w :: h :: r ->
       st := resize !st (z_of_int w) (z_of_int h);
-      st := (if !gated then settle_g !st else settle_all !st); out := !out @ snap !st; go r
+      st := (if !gated then settle_g !st else settle_all !st); out := !out @ snap !st []; go r
     | k :: r ->
       st := upd !st k;
+      let hooked = hook_of !st in
       st := (if !gated then settle_g !st else settle_all !st);
-      out := !out @ snap !st; go r in
+      out := !out @ snap !st hooked; go r in
   go keys;
   !out
+let take_feeds r =
+  let (nf, r2) = take1 r in
+  let rf = ref r2 in
+  let feeds = ref [] in
+  for _ = 1 to nf do
+    let (name, r3) = take_text !rf in let (ni, r4) = take1 r3 in let (_, r5) = take_texts ni r4 in
+    feeds := name :: !feeds; rf := r5
+  done;
+  (!feeds, !rf)
+let op_ui args =
+  let (preload, r) = take1 args in let (width, r) = take1 r in let (height, r) = take1 r in
+  let (n, r) = take1 r in
+  let wd = new_uworld () in
+  let r = ref r in
+  for i = 0 to n - 1 do
+    let (p, r1) = take1 !r in let (hk, r2) = take1 r1 in let (ks, r3) = take_list r2 in
+    let (nl, r4) = take1 r3 in let (ls, r5) = take_texts nl r4 in
+    if p >= 0 then Hashtbl.replace wd.uw_parent i p;
+    if hk <> 0 then Hashtbl.replace wd.uw_kids i ks;
+    Hashtbl.replace wd.uw_links i ls; r := r5
+  done;
+  let (root, r1) = take1 !r in
+  let (feeds, keys) = take_feeds r1 in
+  run_ui wd preload width height root feeds keys ~frames:true ~hooks:false
+(* uipub: preload width height, json text and constructor of the root document (used by the implementation only), then the
+   abstract world: n items, per item id, parent(-1), nlinks links, creators(-1 | list), recipients(-1 | list), actor(-1),
+   media / pfp / banner (0 | 1 text); root id; feeds; keys *)
+let op_uipub args =
+  let (preload, r) = take1 args in let (width, r) = take1 r in let (height, r) = take1 r in
+  let (_doc, r) = take_text r in let (_ctor, r) = take1 r in
+  let (n, r) = take1 r in
+  let wd = new_uworld () in
+  let r = ref r in
+  let opt_list r = let (f, r1) = take1 r in if f < 0 then (None, r1) else let (l, r2) = take_n f r1 in (Some l, r2) in
+  let opt_text r = let (f, r1) = take1 r in if f = 0 then (None, r1) else let (t, r2) = take_text r1 in (Some t, r2) in
+  for _ = 1 to n do
+    let (id, r1) = take1 !r in let (p, r2) = take1 r1 in
+    let (nl, r3) = take1 r2 in let (ls, r4) = take_texts nl r3 in
+    let (cr, r5) = opt_list r4 in let (rc, r6) = opt_list r5 in let (ac, r7) = take1 r6 in
+    let (me, r8) = opt_text r7 in let (pf, r9) = opt_text r8 in let (bn, r10) = opt_text r9 in
+    if p >= 0 then Hashtbl.replace wd.uw_parent id p;
+    Hashtbl.replace wd.uw_links id ls;
+    (match cr with Some l -> Hashtbl.replace wd.uw_creators id l | None -> ());
+    (match rc with Some l -> Hashtbl.replace wd.uw_recipients id l | None -> ());
+    if ac >= 0 then Hashtbl.replace wd.uw_actor id ac;
+    (match me with Some t -> Hashtbl.replace wd.uw_media id t | None -> ());
+    (match pf with Some t -> Hashtbl.replace wd.uw_pfp id t | None -> ());
+    (match bn with Some t -> Hashtbl.replace wd.uw_banner id t | None -> ());
+    r := r10
+  done;
+  let (root, r1) = take1 !r in
+  let (feeds, keys) = take_feeds r1 in
+  run_ui wd preload width height root feeds keys ~frames:false ~hooks:true
 
 (* observations of the ui op: mode, buffer, 8 numbers, frame text.  The state part is the keymap's subject (C07); the frame's
    line count is C16's; its text must pass the terminal oracles (C01, C14); everything is compared raw as well. *)
-let parse_ui_obs l =
+let parse_ui_obs hooks l =
   let rec go l acc = match l with
     | [] -> List.rev acc
     | _ ->
       let (m, r) = take1 l in let (b, r) = take_text r in let (nums, r) = take_n 8 r in
       let (fr, r) = (match r with x :: r' when x = -999999 -> (None, r') | _ -> let (t, r') = take_text r in (Some t, r')) in
-      go r ((m, b, nums, fr) :: acc) in
+      let (hk, r) = (if hooks then take_text r else ([], r)) in
+      go r ((m, b @ (n_of_int 0 :: hk), nums, fr) :: acc) in
   go l []
-let orc_ui args impl =
+let orc_ui_gen hooks model args impl =
   try
-    let io = parse_ui_obs impl and mo = parse_ui_obs (op_ui args) in
+    let io = parse_ui_obs hooks impl and mo = parse_ui_obs hooks (model args) in
     let state_eq = List.length io = List.length mo
                    && List.for_all2 (fun (m, b, n, _) (m', b', n', _) -> m = m' && b = b' && n = n') io mo in
     (* n = [pid; item; lower; upper; loadingUp; loadingDown; frames; lines of last frame]; the model's last number is the terminal height *)
@@ -898,6 +948,8 @@ let orc_ui args impl =
     [("state_equals_model", state_eq); ("frame_height_ok", heights);
      ("frame_wf", List.for_all wf_text_b frames); ("frame_neutral", List.for_all neutral_b frames)]
   with _ -> [("well_formed_result", false)]
+let orc_ui = orc_ui_gen false op_ui
+let orc_uipub = orc_ui_gen true op_uipub
 
 (* ---------------- itemx: posts and actors rendered from the fields their constructor stored ---------------- *)
 (* fval from the lib stream: 0 value | 1 absent msg | 2 err msg *)
@@ -1038,6 +1090,7 @@ let () =
   reg "item" op_item orc_item;
   regl "itemx" op_itemx orc_itemx;
   reg "ui" op_ui orc_ui;
+  reg "uipub" op_uipub orc_uipub;
   reg "uihook" (fun _ -> []) (fun _ impl -> match impl with _ :: _ :: st :: _ -> [("every_key_processed", st = 0)] | _ -> []);
   reg "uistress" (fun _ -> []) (fun _ impl -> match impl with u :: o :: st :: _ -> [("frames_under_lock", u = 0); ("frames_one_at_a_time", o = 0); ("every_key_processed", st = 0)] | _ -> []);
   reg "rendernm" (fun _ -> []) no_oracle;
